@@ -667,6 +667,25 @@ impl ReplicaProp {
                                 pending.push_back(json!({"op":"msg","from":i,"sig_ok":true,"msg":{"timeout":ATVote { view: aview(w_view), hv: None, hq: hq.clone() }}}));
                             }
                         }
+                    } else if g.rng.gen_bool(0.4) {
+                        // a validator's vote for the current view, another validator's vote for it (keeps the partial
+                        // certificate alive), the first validator's vote for a FUTURE view, then its old vote again
+                        out.count("family=stale_resend_after_future_vote");
+                        let i = g.rng.gen_range(0..n);
+                        let j = (i + 1 + g.rng.gen_range(0..n - 1)) % n;
+                        let fut = cur + g.rng.gen_range(1..6);
+                        if g.rng.gen_bool(0.5) {
+                            let h = g.rng.gen_range(1..4);
+                            let (bn, h) = *g.certified.entry(cur).or_insert((base_n, h));
+                            let (fb, fh) = *g.certified.entry(fut).or_insert((base_n + 1, h));
+                            for (from, v, b_, h_) in [(i, cur, bn, h), (j, cur, bn, h), (i, fut, fb, fh), (i, cur, bn, h)] {
+                                pending.push_back(json!({"op":"msg","from":from,"sig_ok":true,"msg":{"commit":avote(v, b_, h_)}}));
+                            }
+                        } else {
+                            for (from, v) in [(i, cur), (j, cur), (i, fut), (i, cur)] {
+                                pending.push_back(json!({"op":"msg","from":from,"sig_ok":true,"msg":{"timeout":ATVote { view: aview(v), hv: None, hq: None }}}));
+                            }
+                        }
                     } else if cur >= 1 {
                         // the view's timer fires, then the leader's new-view and proposal for the SAME view arrive late: a
                         // timeout vote is a promise not to vote in that view any more
@@ -692,10 +711,16 @@ impl ReplicaProp {
                         // validly signed votes for arbitrary future views from a few validators
                         let from = g.rng.gen_range(0..n);
                         let view = cur + g.rng.gen_range(0..1000);
-                        if g.rng.gen_bool(0.5) {
-                            json!({"op":"msg","from":from,"sig_ok":true,"msg":{"commit": avote(view, g.rng.gen_range(0..5), g.rng.gen_range(1..4))}})
-                        } else {
-                            json!({"op":"msg","from":from,"sig_ok":true,"msg":{"timeout": ATVote{view: aview(view), hv: None, hq: None}}})
+                        match g.rng.gen_range(0..5) {
+                            0 | 1 => json!({"op":"msg","from":from,"sig_ok":true,"msg":{"commit": avote(view, g.rng.gen_range(0..5), g.rng.gen_range(1..4))}}),
+                            2 | 3 => json!({"op":"msg","from":from,"sig_ok":true,"msg":{"timeout": ATVote{view: aview(view), hv: None, hq: None}}}),
+                            // validly signed, well-formed view, but content that does not verify (high vote of another chain):
+                            // rejected messages must leave no trace in the caches either
+                            _ => {
+                                let mut hv = avote(view.saturating_sub(1), g.rng.gen_range(0..5), 2);
+                                hv.view.g = 1;
+                                json!({"op":"msg","from":from,"sig_ok":true,"msg":{"timeout": ATVote{view: aview(view), hv: Some(hv), hq: None}}})
+                            }
                         }
                     }
                     _ if roll < 9 => json!({"op":"tick","crash":crash}),
